@@ -82,6 +82,19 @@ P2 == P1 \cup PLevel(I1, B1, P1, O0, T0)
 I3 == I2 \cup IntLevel(I2, B2, P2, O0, T0)
 B3 == B2 \cup BoolLevel(I2, B2, P2, O0, T0)
 
+\* Reduced levels for the depth-3 model check (no calls / tuple index / second field; the full depth-3
+\* set has about 10^7 trees): arithmetic, unary, comparison and equality operators and one postfix form.
+IntLevelR(I, P) == [k : {"bin"}, op : ArithOps, l : I, r : I] \cup [k : {"un"}, op : {"-"}, e : I] \cup [k : {"fld"}, e : P, f : {"x"}]
+BoolLevelR(I, B, P) == [k : {"bin"}, op : CmpOps \cup EqOps, l : I, r : I] \cup [k : {"bin"}, op : EqOps \cup LogOps, l : B, r : B]
+                       \cup [k : {"un"}, op : {"not"}, e : B] \cup [k : {"fld"}, e : P, f : {"b"}]
+I1R == I0 \cup IntLevelR(I0, P0)
+B1R == B0 \cup BoolLevelR(I0, B0, P0)
+I2R == I1R \cup IntLevelR(I1R, P0)
+B2R == B1R \cup BoolLevelR(I1R, B1R, P0)
+I3R == I2R \cup IntLevelR(I2R, P0)
+B3R == B2R \cup [k : {"bin"}, op : CmpOps \cup EqOps, l : I2R, r : I2R] \cup [k : {"un"}, op : {"not"}, e : B2R]
+           \cup [k : {"bin"}, op : LogOps, l : B1R, r : B2R] \cup [k : {"bin"}, op : LogOps, l : B2R, r : B1R]
+
 \* Operator triples: every well-typed tree with exactly n operator nodes (unary or binary); the
 \* leaves are holes, numbered afterwards from left to right so that every operand is a different
 \* variable (a b c d / u v w s) and a swap of operands is visible in the code.
@@ -275,8 +288,8 @@ Shape(e) == IF PostRight(e) /\ PostUnary(e) THEN "both" ELSE IF PostRight(e) THE
 
 Universe ==
   CASE Family = "d2" -> I2 \cup B2
-    [] Family = "d3" -> I3 \cup B3
-    [] Family = "naive" -> I3
+    [] Family = "d3" -> I3R \cup B3R
+    [] Family = "naive" -> I3R
     [] Family = "t3" -> T3
     [] Family = "t3p" -> T3P
     [] Family = "comb" -> {Atom("a")}
